@@ -362,8 +362,10 @@ Definition spec_step (N : Z) (l : list elem) (o : op) (nid : Z) : sresult :=
     let '(b, evs) := spec_eq val_eqb l (abs other) in SRet (mkSR (OutBool b) l evs nid)
   | OEqSlice _ xs =>
     let '(b, evs) := spec_eq val_eqb l xs in SRet (mkSR (OutBool b) l evs nid)
-  | OPartialCmp other | OCmp other =>
+  | OPartialCmp other =>
     let '(r, evs) := spec_cmp val_cmp l (abs other) in SRet (mkSR (OutOrd r) l evs nid)
+  | OCmp other =>
+    let '(r, evs) := spec_cmp val_ord l (abs other) in SRet (mkSR (OutOrd r) l evs nid)
   | OHash => SRet (mkSR OutUnit l (EvHashLen n :: map EvHash l) nid)
   | OWrite _ src =>
     let '(l', evs, nid') := spec_extend_from_slice N l src nid in
